@@ -141,6 +141,8 @@ class Layout:
             return list(v.arrs)
         if isinstance(v, StructV):
             out = []
+            if 'f' not in t:
+                raise Unsupported('flatten struct value as %r' % (t,))
             for f in t['f']:
                 out += self.flatten(v.fields[f['n']], f['t'])
             return out
@@ -232,7 +234,7 @@ class Layout:
         if s is not None:
             if s == I: return z3.IntVal(0)
             if s == B: return z3.BoolVal(False)
-            if z3.is_bv_sort(s): return z3.BitVecVal(0, s.size())
+            if s.kind() == z3.Z3_BV_SORT: return z3.BitVecVal(0, s.size())
             if s == F64: return z3.FPVal(0.0, F64)
             if s == F32: return z3.FPVal(0.0, F32)
         if k == 'basic' and t['b'] in ('string', 'untyped string'):
@@ -259,8 +261,8 @@ class Layout:
     def _zero_of_sort(self, s):
         if s == I: return z3.IntVal(0)
         if s == B: return z3.BoolVal(False)
-        if z3.is_bv_sort(s): return z3.BitVecVal(0, s.size())
-        if z3.is_array_sort(s): return z3.K(s.domain(), self._zero_of_sort(s.range()))
+        if s.kind() == z3.Z3_BV_SORT: return z3.BitVecVal(0, s.size())
+        if s.kind() == z3.Z3_ARRAY_SORT: return z3.K(s.domain(), self._zero_of_sort(s.range()))
         if s == F64: return z3.FPVal(0.0, F64)
         if s == F32: return z3.FPVal(0.0, F32)
         return fresh('zero', s)
